@@ -95,6 +95,7 @@ void sleepUs(unsigned us) {
 }
 
 void doDelay(ThreadRec *t, unsigned maxUs) {
+    if (maxUs >= 1000000) { sleepUs(maxUs); return; }   // a delay of seconds is asked for by name: take all of it, asleep
     uint64_t r = xs(t->rng);
     unsigned us = maxUs ? (unsigned) ((r >> 8) % (maxUs + 1)) : 0;
     switch (r % 3) {
